@@ -473,7 +473,14 @@ func c18GenMux(r *hysim.Rand, tier string, race bool) *hysim.Script {
 		sc.Ops = sc.Ops[:1]
 	}
 	sc.Ops = append(sc.Ops, c18GenConn(r))
+	probesAt := -1
+	if r.Chance(1, 20) {
+		probesAt = r.Intn(nops)
+	}
 	for i := 0; i < nops; i++ {
+		if i == probesAt {
+			sc.Ops = append(sc.Ops, hysim.Op{K: "probes", A: []int64{r.Pick64(33, 40, 70, 130), r.Pick64(0, 0, 50, 2000)}}, hysim.Op{K: "sleep", A: []int64{r.Pick64(1000, 50000)}}, c18GenConn(r), c18GenConn(r))
+		}
 		p := r.Intn(100)
 		switch {
 		case p < 55:
@@ -526,6 +533,17 @@ func c18ExecMux(x *hysim.Run) {
 			}
 		case "conn":
 			w.conn(op)
+		case "probes":
+			// a long history of connections that never send a byte (health checks, port scans):
+			// they connect and go away; whatever state they leave must not add up
+			n := int(c18Clamp(op.Arg(0), 1, 200))
+			for k := 0; k < n; k++ {
+				w.conn(hysim.Op{K: "conn", A: []int64{7, 0, c18mAbort, op.Arg(1), 0, 0, 0, 0, 0}})
+				if k%16 == 15 {
+					time.Sleep(time.Millisecond)
+				}
+			}
+			x.Probe("silent-probe-history")
 		case "failaccept":
 			if m := w.cur; m != nil && !m.base.IsClosed() && !m.failed {
 				m.failed = true
@@ -558,6 +576,16 @@ func c18ExecMux(x *hysim.Run) {
 	// registered (same registration from push until now, acceptor alive, no base failure)
 	// must have been handed over or closed by now
 	for _, mc := range w.conns {
+		if !mc.taken {
+			// a mux with a listener that stayed registered and accepting since before this
+			// connection arrived keeps accepting from the shared port, whatever came before
+			for p := 0; p < 2; p++ {
+				r := w.regs[p]
+				if r != nil && r.open && !r.dead && r.mux == mc.mux && r.gen == mc.regAt[p] && mc.regAt[p] != 0 && !mc.mux.failed && !mc.mux.base.IsClosed() && !x.Violated() {
+					x.Violate("mux-stopped-accepting", "conn%d was never taken from the shared port although %s listener #%d of mux%d stayed registered and accepting since before it arrived (%d connections came before it)", mc.id, c18ProtoName(p), r.gen, mc.mux.gen, mc.id)
+				}
+			}
+		}
 		if !mc.taken || len(mc.sent) == 0 || mc.accepted > 0 || mc.srv.Closes > 0 {
 			continue
 		}
